@@ -6,7 +6,7 @@ from .c10 import is_done
 from .conn import leaves, ret_kind
 from .fields import field_writers
 from .srv import S, CC, calls
-from .util import const_of, is_call, last_seg, look, norm, truth, option_is_some, payload_of
+from .util import writer_roots, const_of, is_call, last_seg, look, norm, truth, option_is_some, payload_of
 
 EXPLANATION = (
     "Static decision of the premises of the routing invariant id = map key = descriptor: every epoll "
@@ -84,18 +84,25 @@ def ids(ctx):
                 continue
             n += 1
             cap = [look(x) for x in clo[2]]
-            cap_ok = len(cap) == 1 and norm(strip_some(cap[0])) == norm(ev)
+            cap_is_event = len(cap) == 1 and norm(strip_some(cap[0])) == norm(ev)
+            cap_is_data = len(cap) == 1 and srv.is_event_field(cap[0], ev, "data")     # `let id = e.data();` hoisted out of the closure
+            cap_ok = cap_is_event or cap_is_data
             src = look(m[4][2][0])
             src_ok = is_call(src, "into_iter") and norm(strip_try(look(src[2][0]))) == norm(rd[0][4])
-            ctx.ob("R07.1", "wrap|captures-this-event", cap_ok, "the closure that wraps requests captures the event being handled", fn.loc(m[1]))
+            ctx.ob("R07.1", "wrap|captures-this-event", cap_ok, "the closure that wraps requests captures the event being handled (or its data() taken just before)", fn.loc(m[1]))
             ctx.ob("R07.1", "wrap|over-requests-just-read", src_ok, "it is mapped over the requests read() just returned for that event", fn.loc(m[1]))
             fc, lc = leaves(ctx, clo[1])
             for l2 in lc:
                 r = look(l2.ret())
-                ok = is_call(r, "server::ServerRequest::new") and look(r[2][0]) == ("arg", 2) and is_call(look(r[2][1]), "vmm_sys_util::epoll::EpollEvent::data")
-                if ok:
-                    a = look(look(r[2][1])[2][0])
+                ok = is_call(r, "server::ServerRequest::new") and look(r[2][0]) == ("arg", 2)
+                if ok and cap_is_data:
+                    a = look(r[2][1])
                     ok = a[0] == "field" and look(a[1]) == ("arg", 1)
+                elif ok:
+                    ok = is_call(look(r[2][1]), "vmm_sys_util::epoll::EpollEvent::data")
+                    if ok:
+                        a = look(look(r[2][1])[2][0])
+                        ok = a[0] == "field" and look(a[1]) == ("arg", 1)
                 ctx.ob("R07.1", "wrap|id-is-event-data", ok, "ServerRequest::new(request, e.data()) with e the captured event", fc.loc(0))
     ctx.ob("R07.1", "floor", n >= 1, "%d wrapping site(s) inspected (floor 1)" % n)
     # ServerRequest is constructed nowhere else in the crate
@@ -221,7 +228,7 @@ def counter(ctx):
         ctx.ob("R07.6", "enqueue|counter-minus-one", ok, "every Ok path of enqueue_response decrements in_flight by exactly 1", fe.loc(lf.bb))
     ctx.ob("R07.6", "enqueue|floor", m >= 1, "%d Ok path(s) of enqueue_response inspected (floor 1)" % m)
     for w in field_writers(facts, srv.CCT, "in_flight_response_count"):
-        ctx.ob("R07.6", "writers|%s" % w[0], w[0] in (CC + "read", CC + "enqueue_response", CC + "new"), "writer of in_flight_response_count: %s (%s)" % (w[0], w[3]), w[2])
+        ctx.ob("R07.6", "writers|%s" % w[0], writer_roots(facts, w[0]) <= {CC + "read", CC + "enqueue_response", CC + "new"}, "writer of in_flight_response_count: %s (%s)" % (w[0], w[3]), w[2])
 
 
 def is_empty_vec(t):
